@@ -20,6 +20,7 @@ type Origin struct {
 	Name string    // parameter name, field name "T.f", callee qualified name, ...
 	Val  ssa.Value // the leaf value
 	Path []string  // transparent steps crossed on the way (outermost first)
+	Via  []*ssa.Call // the transparent / inlined calls crossed on the way (outermost first)
 }
 
 func (o Origin) String() string {
@@ -116,11 +117,18 @@ func Origins(v ssa.Value, opt FlowOpts) []Origin {
 	seen := map[ssa.Value]bool{}
 	var out []Origin
 	var rec func(v ssa.Value, path []string, d int)
+	var via []*ssa.Call
 	leaf := func(o Origin, path []string) {
 		o.Path = append([]string{}, path...)
+		o.Via = append(append([]*ssa.Call{}, via...), o.Via...)
 		out = append(out, o)
 	}
-	leafRaw := func(o Origin) { out = append(out, o) }
+	leafRaw := func(o Origin) {
+		o.Via = append(append([]*ssa.Call{}, via...), o.Via...)
+		out = append(out, o)
+	}
+	pushVia := func(c *ssa.Call) { via = append(via, c) }
+	popVia := func() { via = via[:len(via)-1] }
 	rec = func(v ssa.Value, path []string, d int) {
 		if v == nil {
 			return
@@ -195,12 +203,12 @@ func Origins(v ssa.Value, opt FlowOpts) []Origin {
 		case *ssa.Extract:
 			// result i of a call
 			if c, ok := x.Tuple.(*ssa.Call); ok {
-				recCall(c, x.Index, path, d, opt, rec, leaf, leafRaw)
+				recCall(c, x.Index, path, d, opt, rec, leaf, leafRaw, pushVia, popVia)
 			} else {
 				rec(x.Tuple, path, d+1)
 			}
 		case *ssa.Call:
-			recCall(x, 0, path, d, opt, rec, leaf, leafRaw)
+			recCall(x, 0, path, d, opt, rec, leaf, leafRaw, pushVia, popVia)
 		case *ssa.Alloc:
 			leaf(Origin{Kind: "alloc", Name: typeString(x.Type()), Val: x}, path)
 		case *ssa.MakeSlice:
@@ -329,7 +337,7 @@ func arrayElems(v ssa.Value) []ssa.Value {
 }
 
 func recCall(c *ssa.Call, resultIdx int, path []string, d int, opt FlowOpts,
-	rec func(ssa.Value, []string, int), leaf func(Origin, []string), leafRaw func(Origin)) {
+	rec func(ssa.Value, []string, int), leaf func(Origin, []string), leafRaw func(Origin), pushVia func(*ssa.Call), popVia func()) {
 	ci := callInfo(c, c.Block(), -1)
 	if opt.Alias {
 		if b, ok := c.Call.Value.(*ssa.Builtin); ok && b.Name() == "append" && len(c.Call.Args) > 0 {
@@ -337,11 +345,29 @@ func recCall(c *ssa.Call, resultIdx int, path []string, d int, opt FlowOpts,
 			return
 		}
 	}
+	if acc := accumulatorResult(ci); acc != nil {
+		if opt.Alias {
+			leaf(Origin{Kind: "alloc", Name: "accumulator", Val: c}, path)
+			return
+		}
+		pushVia(c)
+		n := 0
+		for _, w := range accumulatorWrites(c.Parent(), acc) {
+			rec(w, append(path, "accumulate"), d+1)
+			n++
+		}
+		popVia()
+		if n == 0 {
+			leaf(Origin{Kind: "const", Name: "\"\"", Val: c}, path)
+		}
+		return
+	}
 	if tr := opt.Transparent(ci); tr != nil {
 		nm := ci.Name()
 		if b, ok := c.Call.Value.(*ssa.Builtin); ok {
 			nm = b.Name()
 		}
+		pushVia(c)
 		for _, a := range tr {
 			short := nm
 			if i := strings.LastIndex(short, "."); i >= 0 {
@@ -349,6 +375,7 @@ func recCall(c *ssa.Call, resultIdx int, path []string, d int, opt FlowOpts,
 			}
 			rec(a, append(path, short), d+1)
 		}
+		popVia()
 		return
 	}
 	if opt.Interproc > 0 && ci.Static != nil && inModule(ci.Static) && ci.Static.Blocks != nil {
@@ -356,6 +383,8 @@ func recCall(c *ssa.Call, resultIdx int, path []string, d int, opt FlowOpts,
 		sub := opt
 		sub.Interproc--
 		args := c.Call.Args
+		pushVia(c)
+		defer popVia()
 		for _, r := range returnsOf(callee) {
 			if resultIdx >= len(r.Results) {
 				continue
@@ -365,7 +394,13 @@ func recCall(c *ssa.Call, resultIdx int, path []string, d int, opt FlowOpts,
 					mapped := false
 					for i, p := range callee.Params {
 						if p == o.Val && i < len(args) {
+							for _, vc := range o.Via {
+								pushVia(vc)
+							}
 							rec(args[i], append(append(path, lastSeg(ci.Name())), o.Path...), d+1)
+							for range o.Via {
+								popVia()
+							}
 							mapped = true
 						}
 					}
@@ -441,4 +476,45 @@ func allOrigins(os []Origin, pred func(Origin) bool) bool {
 		}
 	}
 	return len(os) > 0
+}
+
+// accumulatorResult: ci reads the content of a strings.Builder / bytes.Buffer
+// (String, Bytes); returns the accumulator object (the receiver address).
+func accumulatorResult(ci *CallInfo) ssa.Value {
+	if ci.Static == nil {
+		return nil
+	}
+	switch qualName(ci.Static) {
+	case "strings.(Builder).String", "bytes.(Buffer).String", "bytes.(Buffer).Bytes":
+		return ci.Recv()
+	}
+	return nil
+}
+
+// accumulatorWrites: the values written into accumulator acc anywhere in f, in
+// program order (block index, then instruction index).
+func accumulatorWrites(f *ssa.Function, acc ssa.Value) []ssa.Value {
+	var out []ssa.Value
+	if f == nil {
+		return nil
+	}
+	for _, b := range f.Blocks {
+		for _, in := range b.Instrs {
+			ci := callInfo(in, nil, 0)
+			if ci == nil || ci.Static == nil || ci.Kind != "call" {
+				continue
+			}
+			q := qualName(ci.Static)
+			if !(strings.HasPrefix(q, "strings.(Builder).Write") || strings.HasPrefix(q, "bytes.(Buffer).Write")) {
+				continue
+			}
+			if r := ci.Recv(); r == nil || !(r == acc || keyP(r) == keyP(acc)) {
+				continue
+			}
+			if a := ci.Arg(0); a != nil {
+				out = append(out, a)
+			}
+		}
+	}
+	return out
 }
